@@ -306,12 +306,57 @@ def topdown_unsat(prog):
     fn = prog.find1(name="compile_cnf_topdown", in_trait="builder::decision_nnf::builder::DecisionNNFBuilder",
                     unit="rsdd-lib")
     te = fn.terms
-    arms = gamma_arms(te, te.ret) or {}
+    # every return alternative reached when SATSolver::new(..) is None must be the false constant
+    found = []
+
+    def collect(t, pb, conds):
+        if isinstance(t, tuple) and t and t[0] == "phi":
+            for p_, v in t[2]:
+                collect(v, p_, conds)
+        elif isinstance(t, tuple) and t and t[0] == "gamma":
+            vm = te._discr_variants.get(t[1]) or {}
+            for lab, v in t[2]:
+                names = [vm.get(lab, lab)] if isinstance(lab, str) else []
+                collect(v, pb, conds + [(t[1], names)])
+        else:
+            facts = list(conds)
+            if isinstance(pb, int) and pb >= 0:
+                for c, val, vm, d in te.facts_at(pb):
+                    if vm and isinstance(val, str):
+                        facts.append((c, [vm.get(val, val)]))
+            for c, names in facts:
+                c = strip(c)
+                if c[0] == "discr" and mir.is_call(strip(c[1]), "new") and "SATSolver" in strip(c[1])[1].key() and names == ["None"]:
+                    found.append(t)
+    for b, t in te.ret_by_block.items():
+        collect(t, b, [])
+    if not found:
+        # the None edge may share its return block with other early returns: follow the edge in the CFG
+        cfg = fn.cfg
+        for d, (c, vm) in te.switch_term.items():
+            c = strip(c)
+            if c[0] == "discr" and mir.is_call(strip(c[1]), "new") and "SATSolver" in strip(c[1])[1].key() and vm:
+                tt = fn.blocks[d]["term"]
+                tgt = None
+                for v, b in tt["targets"]:
+                    if vm.get(v) == "None":
+                        tgt = b
+                if tgt is None and "None" in vm.values():
+                    tgt = tt["otherwise"]
+                if tgt is None:
+                    continue
+                for rb, t in te.ret_by_block.items():
+                    alts = dict(t[2]) if isinstance(t, tuple) and t and t[0] == "phi" else {rb: t}
+                    reach = cfg.reachable_from(tgt, avoid={rb})
+                    for p_, v in alts.items():
+                        if p_ in reach or p_ == tgt:
+                            found.append(v)
     e = None
-    if "None" not in arms:
-        e = "no None arm for SATSolver::new"
+    if not found:
+        e = "no return path for SATSolver::new == None recognised"
     else:
-        e = match(C("false_ptr"), arms["None"])
+        for t in found:
+            e = e or match(C("false_ptr"), t)
     out.append(inst("DP", fn.npath + ":initially-unsat", VIOLATION if e else OK, fn, None,
                     e or "SATSolver::new == None ↦ false_ptr"))
     fn = prog.find1(name="topdown_h", in_trait="builder::decision_nnf::builder::DecisionNNFBuilder", unit="rsdd-lib")
